@@ -1,6 +1,7 @@
 (* fmt_driver.ml — model and oracle side of the format cluster (C08)
    case lines:   fmt <format-hex> <op>*        op  = p:<arg>  |  a:<arg>,<arg>,...  |  a:.
                  os <width> <fill-hex> <l|r|i> <format-hex> <op>*      operator<< into a stream holding "pre:" with that pending width/fill/adjustment, then "!"
+                 rel <scenario> <format-hex> <other-format-hex> <op>* / <op>*     the formatter object is copied / moved / relocated between the two groups
                  seq <format-hex> <op>* / <format-hex> <op>* / ...     (several formatters, one after the other)
                  exc <arg>+
    arg = s<hex> | s- (const std::string&) | n<hex> (non-const lvalue: the caller's variable holding that text; the same text = the same
@@ -55,6 +56,7 @@ let rec split_seq (ws : string list) : string list list =
     | "/" :: r -> go [] (List.rev cur :: acc) r
     | x :: r -> go (x :: cur) acc r in
   go [] [] ws
+let split_seq_fwd = split_seq
 let parse_fmt = function f :: ops -> (str_of_hex f, List.map parse_op ops) | [] -> failwith "seq"
 (* os: the caller's stream holds "pre:" and has a pending width / fill / adjustment (l = left; r, i = right, internal) *)
 let pre = str_of_hex "7072653a" and sentinel = str_of_hex "21"
@@ -62,11 +64,29 @@ let parse_adj = function "l" -> true | "r" | "i" -> false | _ -> failwith "adj"
 let parse_fill c = match str_of_hex c with [b] -> b | _ -> failwith "fill"
 let parse_stream w c adj = { content = pre; width = nat_of_int (int_of_string w); fill = parse_fill c; adjust_left = parse_adj adj }
 let obs_stream (s, returned) = "O " ^ hex_of_str s ^ (if returned then " K" else " R")
+(* rel: <scenario> <format> <other format> <op>* / <op>*   — arguments before and after the relocation of the formatter object.
+   Second observation: the SOURCE object where it still has a specified value: after a copy (cc, ca) it is the format with
+   the arguments given before; after std::swap (sw) it holds the other formatter (other format, one argument "old") *)
+let scenarios = ["mc"; "mcd"; "mcr"; "ma"; "mad"; "cc"; "ccd"; "ca"; "cad"; "vec"; "ret"; "sw"]
+let parse_rel ws = match split_seq_fwd ws with
+  | [a; b] -> (List.map parse_op a, List.map parse_op b)
+  | _ -> failwith "rel"
+let old_arg = AStr (str_of_hex "6f6c64")
+let rel_source_with (eval : byte list -> op list -> res) scn f other pre =
+  if not (List.mem scn scenarios) then failwith "scenario" else
+  match scn with
+  | "cc" | "ca" -> obs_short (eval f pre)
+  | "sw" -> obs_short (eval other [Pct old_arg])
+  | _ -> "_"
+let rel_source = rel_source_with format_chain
 let in_scope_exc args = List.for_all stateless args
 let model ws =
   try (match ws with
   | "fmt" :: f :: ops -> obs_res (format_chain (str_of_hex f) (List.map parse_op ops))
   | "os" :: w :: c :: adj :: f :: ops -> obs_stream (stream_chain (parse_stream w c adj) (str_of_hex f) (List.map parse_op ops) sentinel)
+  | "rel" :: scn :: f :: other :: rest ->
+      let (pre, post) = parse_rel rest in
+      "M " ^ obs_short (reloc_chain (str_of_hex f) pre post) ^ " " ^ rel_source scn (str_of_hex f) (str_of_hex other) pre
   | "seq" :: rest -> "Q " ^ String.concat " " (List.map obs_short (format_seq (List.map parse_fmt (split_seq rest))))
   | "exc" :: (_ :: _ as args) ->
       let args = List.map parse_arg args in
@@ -87,6 +107,11 @@ let oracle case obs =
       let rendered = List.map render (flatten_ops (List.map parse_op ops)) in
       let (s, returned) = spec_stream pre (nat_of_int (int_of_string w)) (parse_fill c) (parse_adj adj) (str_of_hex f) rendered sentinel in
       str_of_hex x = s && k = (if returned then "K" else "R")
+  | "rel" :: scn :: f :: other :: rest, ["M"; tgt; src] ->
+      let (pre, post) = parse_rel rest in
+      let short r = match r with Ok s -> hex_of_str s | Raise _ -> "R" in
+      let spec_eval fm ops = spec_format fm (List.map render (flatten_ops ops)) in
+      tgt = short (spec_eval (str_of_hex f) (pre @ post)) && src = rel_source_with spec_eval scn (str_of_hex f) (str_of_hex other) pre
   | "seq" :: rest, "Q" :: rs ->
       let l = List.map parse_fmt (split_seq rest) in
       List.length l = List.length rs &&
